@@ -555,8 +555,8 @@ Proof.
       end;
       do 2 eexists; (split; [|exact H]); eauto using st_le_trans. }
   destruct G as [st2 [v [Hle Hf]]]. exists st2, v.
-  unfold fresh, alloc in Hf. inversion Hf; subst. destruct Hle as [Hl _].
-  repeat split; auto. unfold get_cell. apply nth_error_None. lia.
+  unfold fresh, alloc in Hf. inversion Hf; subst. pose proof Hle as [Hl _].
+  split; [exact Hle|]. repeat split; auto. unfold get_cell. apply nth_error_None. lia.
 Qed.
 
 End Rules.
